@@ -4,6 +4,7 @@ from __future__ import annotations
 
 import os
 import shutil
+import subprocess
 import time
 from dataclasses import dataclass, field
 from typing import Optional
@@ -119,6 +120,30 @@ class CompileGroup:
         self.rustc_processes += build.collect_hooklog(self.root)
         self.secs += secs
         return rc, msgs, err
+
+    def probe_bin(self, name: str, main_text: str, timeout=120) -> str:
+        """build and run a small binary next to the group's crates (same target dir); -> its stdout.
+        Used to *observe* a behaviour an expectation depends on where the documentation leaves it open."""
+        build.prepare_root(self.root)
+        cdir = os.path.join(self.root, name)
+        os.makedirs(os.path.join(cdir, "src"), exist_ok=True)
+        write_if_changed(os.path.join(cdir, "Cargo.toml"),
+                         crate_manifest(name, {"enum-tools": dep_enum_tools()}, kind="bin"))
+        write_if_changed(os.path.join(cdir, "src", "main.rs"), main_text)
+        emit.emit_workspace(self.root, list(self.libs) + [name])
+        self._emit_libs()
+        rc, msgs, err = self._cargo([name], "build")
+        if rc != 0:
+            raise Inconclusive("probe %s does not build:\n%s" % (
+                name, "\n".join(e["rendered"] for e in build.compiler_errors(msgs)[:3]) or err[-1500:]))
+        exe = os.path.join(self.root, "target", "debug", name)
+        try:
+            p = subprocess.run([exe], capture_output=True, text=True, timeout=timeout)
+        except subprocess.TimeoutExpired:
+            raise Inconclusive("probe %s timed out" % name)
+        if p.returncode != 0:
+            raise Inconclusive("probe %s exited with %d: %s" % (name, p.returncode, p.stderr[-500:]))
+        return p.stdout
 
     # -- the monitor -------------------------------------------------------------------
     def _batch(self, crates: dict, cmd: str, use_control=False):
